@@ -1157,30 +1157,33 @@ pub fn gen_world(tape: &mut Tape, cfg: &GenCfg) -> World {
         [tape.draw(Stream::World, remote_mods.len() as u32) as usize]
         .clone();
       let from = format!("{}alias.ts", H_A);
-      if let Some(Entry::Module { bytes, headers, .. }) = w.remote.get(&to).cloned() {
+      // make somebody import it
+      let importers: Vec<String> = w
+        .descs
+        .values()
+        .filter(|d| d.lang.is_script() && !d.lang.is_declaration())
+        .map(|d| d.url.clone())
+        .collect();
+      if !importers.is_empty() {
+        let imp = importers
+          [tape.draw(Stream::World, importers.len() as u32) as usize]
+          .clone();
+        let mut d = w.descs.get(&imp).unwrap().clone();
+        d.items.push(Item::new(Form::SideEffect, from.clone()));
+        w.add_desc(d);
+      }
+      // the alias serves exactly what the final url serves
+      if let Some(Entry::Module { bytes, headers, .. }) =
+        w.remote.get(&to).cloned()
+      {
         w.remote.insert(
-          from.clone(),
+          from,
           Entry::Module {
             bytes,
             headers,
             final_url: Some(to),
           },
         );
-        // make somebody import it
-        let importers: Vec<String> = w
-          .descs
-          .values()
-          .filter(|d| d.lang.is_script() && !d.lang.is_declaration())
-          .map(|d| d.url.clone())
-          .collect();
-        if !importers.is_empty() {
-          let imp = importers
-            [tape.draw(Stream::World, importers.len() as u32) as usize]
-            .clone();
-          let mut d = w.descs.get(&imp).unwrap().clone();
-          d.items.push(Item::new(Form::SideEffect, from));
-          w.add_desc(d);
-        }
       }
     }
   }
